@@ -25,7 +25,7 @@ RULE = ("layouts of 1-16 keep services with 0-3 mounts each (random stream), a '
 ASSUMPTIONS = [
     "mounts of one device agree on storage classes and replication (a device has one configuration); the generator enforces it",
     "executing a trash request for any mount of a device removes that device's replica (conservative physical model)",
-    "desired replication for a class that no mount offers counts like any other (the block is then under-replicated for that class and is referenced); balanceBlock ignores such classes: known finding F05a",
+    "desired replication for a class that no mount offers counts like any other: the block is then under-replicated for that class (nothing may be trashed) and it is referenced (lost if it has no replica)",
     "mount identity is pointer identity in Go; the model uses one slot per (service index, mount index)",
 ]
 TRUSTED = ["executable MD5 in Lean (ArvVerif/Base/MD5.lean) for rendezvous ranks and rendezvousLess, compared with Go crypto/md5 through every case",
@@ -425,41 +425,9 @@ def _oracle_block(lay, impl):
 
 
 # ----------------------------------------------------------------------------- findings
-# F1, F2 and F12 were repaired by fix: commits in /repo (harness/props/C05.findings.json, status
-# "fixed"); their witnesses are in corpus/C05 and must pass, any recurrence is a VIOLATION.
-# F05a (known): balanceBlock only looks at bal.classes, so desired replication for a class that no
-# mount offers is ignored: a block referenced only in such classes is treated as garbage (all old
-# replicas trashed) and is never reported lost.
-
-def _trash_lost_agree(impl, model):
-    """the implementation's trash list and lost flag are among the outcomes the model allows"""
-    si, sm = split_result(impl), split_result(model)
-    if si is None or sm is None or len(si[1]) != 1 or si[0] != sm[0]:
-        return False
-    try:
-        key = lambda o: (o["lost"], tuple(sorted((i, json.dumps(e, sort_keys=True)) for i, e in o["T"])))
-        return key(parse_outcome(si[1][0])) in {key(parse_outcome(o)) for o in sm[1]}
-    except Exception:
-        return False
-
-
-def finding_of(case, impl, why, model=None):
-    """F05a: the failing clause names a class that no mount offers (the oracle evaluates these
-    clauses last, after every clause about offered classes passed), and the implementation's trash
-    list and lost flag are among those the model of the unchanged code allows (the model is proved to
-    have exactly this defect: C05_unoffered_class_full_fails, C05_lost_full_fails). Nothing else
-    matches."""
-    if not why or "no mount offers" not in why:
-        return None
-    lay = parse_case(case)
-    if lay is None:
-        return None
-    kc = known_classes(lay)
-    if not any(d > 0 and c not in kc for c, d in lay["desired"].items()):
-        return None
-    if model is not None and not _trash_lost_agree(impl, model):
-        return None
-    return "F05a"
+# F1, F2, F12 and F05a were repaired by fix: commits in /repo (harness/props/C05.findings.json, status
+# "fixed"); their witnesses are in corpus/C05 and must pass. There is no finding_of: any failure of
+# any clause on any layout is a VIOLATION.
 
 
 # ----------------------------------------------------------------------------- generator
@@ -685,7 +653,8 @@ def _cs_case(rng):
         colls = []
         for _ in range(rng.choice([0, 1, 1, 2, 3])):
             k = rng.choice([0, 1, 1, 2])
-            colls.append(coll(rng.choice([0, 1, 2, 2, 3, 4]), rng.sample(known, min(k, len(known)))))
+            pool = known + (["nosuchclass"] if rng.random() < 0.15 else [])   # sometimes a class no mount offers
+            colls.append(coll(rng.choice([0, 1, 2, 2, 3, 4]), rng.sample(pool, min(k, len(pool)))))
         blocks.append("%s:%s:%s" % (h, ",".join(reps) or "-", "&".join(colls) or "-"))
     rng.shuffle(blocks)
     return "cs %d %s %s %s" % (minm, rng.choice(["ri", "ir"]), f[3], "~".join(blocks))
